@@ -85,6 +85,13 @@ def circuit_boolean_optimizer(
         ):
             continue
 
+        # The new gates are spliced on the original qubits: skip the section if the
+        # compiler realised (part of) it by renaming qubits instead of emitting gates
+        if not preserve and any(
+            qc_sec.qubit_map.get(s) != i for s, i in qc.qubit_map.items()
+        ):
+            continue
+
         # Replace the circuit section with the new one
         qc_new.gates[section.index[0] : section.index[1]] = qc_sec.gates
 
